@@ -156,8 +156,8 @@ def table_objects():
         except ImportError:
             continue
         for name, val in vars(mod).items():
-            if name.startswith("__"):
-                continue
+            if name.startswith("_"):
+                continue  # private module state (e.g. a memo cache) is not a definition / lookup table
             if isinstance(val, (dict, list, tuple, set)):
                 out[f"{mn}.{name}"] = val
     return out
